@@ -19,6 +19,7 @@ StrProducers(s) == {   \* s: code points
   <<"property-store", Prop(Id("holder"), "k")>>,
   <<"element", Idx(Arr(<<Lit(VStr(s))>>), Num(0))>>,
   <<"function", Id1(Lit(VStr(s)))>>,
+  <<"returned-literal", Call(Id("lit0"), <<>>)>>,      \* a function whose body is `return <the literal>`
   <<"input", Call(Id("input"), <<>>)>> }
 StrVals == { <<"empty", <<>>>>, <<"abc", StrCps("abc")>>, <<"12", StrCps("12")>>, <<"b1.5", <<2535, 46, 2539>>>>, <<"k", StrCps("k")>>,
              <<"yya", <<2488, 2478, 2527>>>> }       \* contains precomposed U+09DF: NFC would rewrite it
@@ -38,11 +39,12 @@ IntProducers(n) == {   \* n: small non-negative TLC integer
 BigProducers == {    \* 2^20 = 1048576 >= 10^6
   <<"literal", Lit(D("1048576"))>>, <<"arith", Bin("*", Num(1024), Num(1024))>>, <<"shift", Bin("<<", Num(1), Num(20))>>,
   <<"or0", Bin("|", Lit(D("1048576")), Num(0))>>, <<"pow", Bin("**", Num(2), Num(20))>>, <<"round", Call(Id("round"), <<Lit(D("1048576.2"))>>)>>,
-  <<"function", Id1(Lit(D("1048576")))>> }
+  <<"function", Id1(Lit(D("1048576")))>>, <<"mod", Bin("%", Lit(D("11048576")), Lit(D("10000000")))>>, <<"div", Bin("/", Lit(D("2097152")), Num(2))>>,
+  <<"min", Call(Id("min"), <<Lit(D("1048576")), Lit(D("2000000"))>>)>>, <<"neg-neg", Un("-", Un("-", Lit(D("1048576"))))>> }
 HugeProducers == {   \* 2^60: beyond 2^53 but exactly a double
   <<"literal", Lit(D("1152921504606846976"))>>, <<"arith", Bin("*", Lit(D("1073741824")), Lit(D("1073741824")))>>, <<"shift", Bin("<<", Num(1), Num(60))>>,
   <<"or0", Bin("|", Lit(D("1152921504606846976")), Num(0))>>, <<"pow", Bin("**", Num(2), Num(60))>>, <<"abs", Call(Id("abs"), <<Un("-", Lit(D("1152921504606846976")))>>)>>,
-  <<"function", Id1(Bin("<<", Num(1), Num(60)))>> }
+  <<"function", Id1(Bin("<<", Num(1), Num(60)))>>, <<"mod", Bin("%", Lit(D("1152921504606846976")), Lit(D("2305843009213693952")))>> }
 NumVals == { <<"0", IntProducers(0)>>, <<"1", IntProducers(1)>>, <<"3", IntProducers(3)>>, <<"7", IntProducers(7)>>, <<"2p20", BigProducers>>, <<"2p60", HugeProducers>> }
 
 (* ---- contexts with one hole h ---- *)
@@ -71,7 +73,8 @@ Ctx(h) ==
          <<"var", SVar("nv", h)>>, <<"arg", SPrint(Call(Id("show2"), <<h, h>>))>>, <<"return", SPrint(Call(Id("ret"), <<>>))>> }
 
 Prelude(s) == << SFun("id", <<"x">>, <<SReturn(Id("x"))>>), SFun("show2", <<"a", "b">>, <<SPrint(Id("a")), SReturn(Bin("==", Id("a"), Id("b")))>>),
-                 SVar("arr4", Arr(<<Num(10), Num(20), Num(30), Num(40)>>)), SVar("holder", Obj(<<"z">>, <<Num(0)>>)), SExpr(PAsg(Id("holder"), "k", s)) >>
+                 SVar("arr4", Arr(<<Num(10), Num(20), Num(30), Num(40)>>)), SVar("holder", Obj(<<"z">>, <<Num(0)>>)), SExpr(PAsg(Id("holder"), "k", s)),
+                 SFun("lit0", <<>>, <<SReturn(s)>>) >>
 Tail2 == << SPrint(Id("arr4")), SPrint(Id("holder")) >>
 (* sequences, not sets: TLC's union of large sets of large values is quadratic *)
 Cross(A, B(_), F(_, _)) == FlattenSeq([i \in 1..Len(A) |-> LET bs == B(A[i]) IN [j \in 1..Len(bs) |-> F(A[i], bs[j])]])
@@ -84,7 +87,7 @@ StrCases == FlattenSeq([vi \in 1..Len(SetToSeq(StrVals)) |-> LET v == SetToSeq(S
 NumCases == FlattenSeq([vi \in 1..Len(SetToSeq(NumVals)) |-> LET v == SetToSeq(NumVals)[vi] IN
                Cross(SetToSeq(v[2]), LAMBDA p : SetToSeq(Ctx(p[2])), LAMBDA p, cx : NumCase(v, p, cx))])
 Cases == StrCases \o NumCases
-Programs == [i \in 1..Len(Cases) |-> LayoutProg(Cases[i].t, 1)]
+Programs == TLCEval([i \in 1..Len(Cases) |-> LayoutProg(Cases[i].t, 1)])
 FamProgOf(i) == Programs[i]
 Init == \E i \in 1..Len(Programs) : InitSem(i, Cases[i].stdin, FALSE)
 Next == SemNext
